@@ -1082,3 +1082,24 @@ def _normpath(I, args, kwargs):
     if isinstance(res, str) and res == "":
         return "."
     return res
+
+
+@_parser_model(_cp.RawConfigParser.remove_option)
+def _ini_remove_option(I, args, kwargs):
+    parser, section, option = args[0], args[1], args[2]
+    d = _section_dict(I, parser, section)
+    option = _xform(I, parser, option)
+    existed = option in d
+    if existed:
+        del d[option]
+    return existed
+
+
+@_parser_model(_cp.RawConfigParser.remove_section)
+def _ini_remove_section(I, args, kwargs):
+    parser, section = args[0], args[1]
+    existed = section in parser._sections
+    if existed:
+        del parser._sections[section]
+        del parser._proxies[section]
+    return existed
